@@ -245,4 +245,781 @@ theorem dedupNones_values_nodup (m : UserMap) (hk : (m.map Prod.fst).Nodup) :
         simp at ht; subst ht
         exact List.mem_filterMap.mpr ⟨(k', some s), (mem_dedupNones_name rest k' s).mp hm, rfl⟩
 
+/-! ### the live `bidict` -/
+
+/-- a value `t` may sit under key `k`: a disabled marker only under its own key -/
+def Owned (k : String) (t : Target) : Prop := ∀ k', t = .disabled k' → k' = k
+
+theorem owned_ofUser (k : String) (v : Option String) : Owned k (.ofUser v) := by
+  intro k' h; cases v <;> simp [Target.ofUser] at h
+
+theorem owned_disabled (k : String) : Owned k (.disabled k) := by
+  intro k' h; cases h; rfl
+
+/-- invariant of a stored map: a `bidict` (keys and values pairwise different) whose disabled
+markers sit under the key they name -/
+structure MapInv (m : KeyMap) : Prop where
+  keys : (m.map Prod.fst).Nodup
+  vals : (m.map Prod.snd).Nodup
+  own  : ∀ k k', (k, Target.disabled k') ∈ m → k = k'
+
+theorem lookup_none_iff {β} (m : List (String × β)) (k : String) : m.lookup k = none ↔ k ∉ m.map Prod.fst := by
+  induction m with
+  | nil => simp
+  | cons e rest ih =>
+    obtain ⟨k', v⟩ := e
+    by_cases h : k = k'
+    · subst h; simp [List.lookup]
+    · have : (k == k') = false := by simpa using h
+      simp [List.lookup, this, ih, h]
+
+theorem lookup_mem_nodup {β} (m : List (String × β)) (k : String) (v : β)
+    (hnd : (m.map Prod.fst).Nodup) (hm : (k, v) ∈ m) : m.lookup k = some v := by
+  induction m with
+  | nil => cases hm
+  | cons e rest ih =>
+    obtain ⟨k', v'⟩ := e
+    simp only [List.map_cons, List.nodup_cons] at hnd
+    rcases List.mem_cons.mp hm with heq | hin
+    · cases heq; simp [List.lookup]
+    · have hne : k ≠ k' := by
+        intro e; subst e
+        exact hnd.1 (List.mem_map.mpr ⟨(k, v), hin, rfl⟩)
+      have : (k == k') = false := by simpa using hne
+      simp only [List.lookup, this]
+      exact ih hnd.2 hin
+
+theorem keyOf_none_iff (m : KeyMap) (t : Target) : keyOf m t = none ↔ t ∉ m.map Prod.snd := by
+  simp only [keyOf, Option.map_eq_none_iff, List.find?_eq_none, List.mem_map, not_exists, not_and]
+  constructor
+  · intro h x hx e; exact h x hx (by simp [e])
+  · intro h x hx e; exact h x hx (by simpa using e)
+
+theorem keyOf_some_mem (m : KeyMap) (t : Target) (k : String) (h : keyOf m t = some k) : (k, t) ∈ m := by
+  unfold keyOf at h
+  cases hf : m.find? (fun e => e.2 == t) with
+  | none => simp [hf] at h
+  | some e =>
+    have h1 := List.mem_of_find?_eq_some hf
+    have h2 := List.find?_some hf
+    obtain ⟨a, b⟩ := e
+    simp [hf] at h
+    simp at h2
+    subst h; subst h2; exact h1
+
+/-- in a bidict the key of a value is unique -/
+theorem key_unique (m : KeyMap) (h : (m.map Prod.snd).Nodup) (k k' : String) (t : Target)
+    (h1 : (k, t) ∈ m) (h2 : (k', t) ∈ m) : k = k' := by
+  by_cases e : k = k'
+  · exact e
+  · exact absurd h (not_nodup_of_two m k k' t e h1 h2)
+
+theorem keyOf_eq_some (m : KeyMap) (h : (m.map Prod.snd).Nodup) (k : String) (t : Target)
+    (hm : (k, t) ∈ m) : keyOf m t = some k := by
+  cases hk : keyOf m t with
+  | none => exact absurd (List.mem_map.mpr ⟨(k, t), hm, rfl⟩) ((keyOf_none_iff m t).mp hk)
+  | some k' => rw [key_unique m h k' k t (keyOf_some_mem m t k' hk) hm]
+
+/-! #### `setAt` -/
+
+theorem setAt_keys (m : KeyMap) (k : String) (t : Target) : (setAt m k t).map Prod.fst = m.map Prod.fst := by
+  unfold setAt
+  rw [List.map_map]
+  apply List.map_congr_left
+  intro e _
+  by_cases h : e.1 = k <;> simp [h]
+
+theorem mem_setAt (m : KeyMap) (k : String) (t : Target) (a : String) (b : Target)
+    (h : (a, b) ∈ setAt m k t) : ((a, b) ∈ m ∧ a ≠ k) ∨ (a = k ∧ b = t) := by
+  unfold setAt at h
+  obtain ⟨e, he, heq⟩ := List.mem_map.mp h
+  by_cases hk : e.1 == k
+  · simp [hk] at heq
+    right; exact ⟨by rw [← heq.1]; simpa using hk, heq.2.symm⟩
+  · simp [hk] at heq
+    left; subst heq; exact ⟨he, by simpa using hk⟩
+
+theorem setAt_of_not_mem (m : KeyMap) (k : String) (t : Target) (h : k ∉ m.map Prod.fst) : setAt m k t = m := by
+  unfold setAt
+  conv => rhs; rw [← List.map_id m]
+  apply List.map_congr_left
+  intro e he
+  have : e.1 ≠ k := fun e' => h (List.mem_map.mpr ⟨e, he, e'⟩)
+  simp [this]
+
+theorem lookup_setAt (m : KeyMap) (k : String) (t : Target) (x : String) :
+    (setAt m k t).lookup x = if x = k then (m.lookup k).map (fun _ => t) else m.lookup x := by
+  induction m with
+  | nil => simp [setAt]
+  | cons e rest ih =>
+    obtain ⟨k', v⟩ := e
+    have hc : setAt ((k', v) :: rest) k t = (if k' == k then (k', t) else (k', v)) :: setAt rest k t := rfl
+    rw [hc]
+    by_cases hk : k' = k
+    · subst hk
+      by_cases hx : x = k'
+      · subst hx; simp [List.lookup]
+      · have : (x == k') = false := by simpa using hx
+        simp [List.lookup, this, hx, ih]
+    · have hk' : (k' == k) = false := by simpa using hk
+      simp only [hk', Bool.false_eq_true, if_false]
+      by_cases hx : x = k'
+      · subst hx; simp [List.lookup, hk]
+      · have : (x == k') = false := by simpa using hx
+        simp only [List.lookup, this, ih]
+        by_cases hxk : x = k
+        · subst hxk
+          have : (x == k') = false := by simpa using hx
+          simp [this]
+        · simp [hxk]
+
+theorem setAt_vals_nodup (m : KeyMap) (k : String) (t : Target)
+    (hk : (m.map Prod.fst).Nodup) (hv : (m.map Prod.snd).Nodup) (ht : t ∉ m.map Prod.snd) :
+    ((setAt m k t).map Prod.snd).Nodup := by
+  induction m with
+  | nil => simp [setAt]
+  | cons e rest ih =>
+    obtain ⟨k', v⟩ := e
+    simp only [List.map_cons, List.nodup_cons, List.mem_cons, not_or] at hk hv ht
+    have hc : setAt ((k', v) :: rest) k t = (if k' == k then (k', t) else (k', v)) :: setAt rest k t := rfl
+    rw [hc]
+    by_cases hkk : k' = k
+    · subst hkk
+      rw [setAt_of_not_mem rest k' t hk.1]
+      simp only [beq_self_eq_true, if_true, List.map_cons, List.nodup_cons]
+      exact ⟨ht.2, hv.2⟩
+    · have hk' : (k' == k) = false := by simpa using hkk
+      simp only [hk', Bool.false_eq_true, if_false, List.map_cons, List.nodup_cons]
+      refine ⟨?_, ih hk.2 hv.2 ht.2⟩
+      intro hmem
+      obtain ⟨⟨a, b⟩, hab, hb⟩ := List.mem_map.mp hmem
+      simp only at hb; subst hb
+      rcases mem_setAt rest k t a b hab with ⟨h1, _⟩ | ⟨_, h2⟩
+      · exact hv.1 (List.mem_map.mpr ⟨(a, b), h1, rfl⟩)
+      · exact ht.1 h2.symm
+
+theorem MapInv.setAt {m : KeyMap} (h : MapInv m) (k : String) (t : Target)
+    (ht : t ∉ m.map Prod.snd) (ho : Owned k t) : MapInv (setAt m k t) := by
+  refine ⟨?_, setAt_vals_nodup m k t h.keys h.vals ht, ?_⟩
+  · rw [setAt_keys]; exact h.keys
+  · intro a k' hm
+    rcases mem_setAt m k t a _ hm with ⟨h1, _⟩ | ⟨h1, h2⟩
+    · exact h.own a k' h1
+    · rw [h1]; exact (ho k' h2.symm).symm
+
+/-! #### `eraseKey`, append, `dropLast` -/
+
+theorem MapInv.sublist {m m' : KeyMap} (h : MapInv m) (hs : m'.Sublist m) : MapInv m' :=
+  ⟨(hs.map _).nodup h.keys, (hs.map _).nodup h.vals, fun k k' hm => h.own k k' (hs.subset hm)⟩
+
+theorem MapInv.erase {m : KeyMap} (h : MapInv m) (k : String) : MapInv (eraseKey m k) :=
+  h.sublist List.filter_sublist
+
+theorem mem_eraseKey (m : KeyMap) (k : String) (e : String × Target) :
+    e ∈ eraseKey m k ↔ e ∈ m ∧ e.1 ≠ k := by
+  simp [eraseKey]
+
+theorem eraseKey_keys (m : KeyMap) (k : String) : k ∉ (eraseKey m k).map Prod.fst := by
+  intro h
+  obtain ⟨e, he, hk⟩ := List.mem_map.mp h
+  exact ((mem_eraseKey m k e).mp he).2 hk
+
+theorem lookup_eraseKey (m : KeyMap) (k x : String) :
+    (eraseKey m k).lookup x = if x = k then none else m.lookup x := by
+  induction m with
+  | nil => simp [eraseKey]
+  | cons e rest ih =>
+    obtain ⟨k', v⟩ := e
+    unfold eraseKey at ih ⊢
+    by_cases hk : k' = k
+    · subst hk
+      simp only [List.filter, beq_self_eq_true, Bool.not_true, ih]
+      by_cases hx : x = k'
+      · simp [hx]
+      · have : (x == k') = false := by simpa using hx
+        simp [hx, List.lookup, this]
+    · have hk' : (k' == k) = false := by simpa using hk
+      simp only [List.filter, hk', Bool.not_false]
+      by_cases hx : x = k'
+      · subst hx; simp [List.lookup, hk]
+      · have : (x == k') = false := by simpa using hx
+        simp only [List.lookup, this, ih]
+
+/-- the value of the erased item is gone -/
+theorem erase_val_gone {m : KeyMap} (h : MapInv m) (k : String) (t : Target) (hm : (k, t) ∈ m) :
+    t ∉ (eraseKey m k).map Prod.snd := by
+  intro hmem
+  obtain ⟨⟨a, b⟩, hab, hb⟩ := List.mem_map.mp hmem
+  simp only at hb; subst hb
+  have := (mem_eraseKey m k (a, b)).mp hab
+  exact this.2 (key_unique m h.vals a k b this.1 hm)
+
+theorem MapInv.append {m : KeyMap} (h : MapInv m) (k : String) (t : Target)
+    (hk : k ∉ m.map Prod.fst) (ht : t ∉ m.map Prod.snd) (ho : Owned k t) : MapInv (m ++ [(k, t)]) := by
+  refine ⟨?_, ?_, ?_⟩
+  · rw [List.map_append, List.nodup_append]
+    refine ⟨h.keys, by simp, ?_⟩
+    intro a ha b hb
+    simp at hb; subst hb
+    intro e; subst e; exact hk ha
+  · rw [List.map_append, List.nodup_append]
+    refine ⟨h.vals, by simp, ?_⟩
+    intro a ha b hb
+    simp at hb; subst hb
+    intro e; subst e; exact ht ha
+  · intro a k' hm
+    rcases List.mem_append.mp hm with h1 | h1
+    · exact h.own a k' h1
+    · simp at h1; rw [h1.1]; exact (ho k' h1.2.symm).symm
+
+theorem lookup_append_single {β} (m : List (String × β)) (k : String) (t : β) (x : String) :
+    (m ++ [(k, t)]).lookup x = match m.lookup x with | some v => some v | none => if x = k then some t else none := by
+  induction m with
+  | nil =>
+    by_cases h : x = k
+    · subst h; simp [List.lookup]
+    · have : (x == k) = false := by simpa using h
+      simp [List.lookup, this, h]
+  | cons e rest ih =>
+    obtain ⟨k', v⟩ := e
+    by_cases hx : x = k'
+    · subst hx; simp
+    · have : (x == k') = false := by simpa using hx
+      simp only [List.cons_append, List.lookup, this, ih]
+
+
+/-! #### the writes preserve the invariant -/
+
+theorem lookup_some_keys {β} (m : List (String × β)) (k : String) (v : β) (h : m.lookup k = some v) :
+    k ∈ m.map Prod.fst := by
+  apply Classical.byContradiction
+  intro hn
+  rw [(lookup_none_iff m k).mpr hn] at h; cases h
+
+theorem bput_inv {m : KeyMap} (h : MapInv m) (k : String) (t : Target) (ho : Owned k t) :
+    MapInv (bput m k t).1 := by
+  unfold bput
+  cases hl : m.lookup k with
+  | none =>
+    cases hk : keyOf m t with
+    | none => exact h.append k t ((lookup_none_iff m k).mp hl) ((keyOf_none_iff m t).mp hk) ho
+    | some k' => exact h
+  | some v =>
+    cases hk : keyOf m t with
+    | none => exact h.setAt k t ((keyOf_none_iff m t).mp hk) ho
+    | some k' => by_cases e : k' = k <;> simp [e] <;> exact h
+
+theorem bput_err_same (m : KeyMap) (k : String) (t : Target) (h : (bput m k t).2 ≠ .ok) :
+    (bput m k t).1 = m := by
+  unfold bput at h ⊢
+  cases hl : m.lookup k <;> cases hk : keyOf m t <;> simp_all
+  split <;> simp_all
+
+theorem bforce_inv {m : KeyMap} (h : MapInv m) (k : String) (t : Target) (ho : Owned k t) :
+    MapInv (bforce m k t) := by
+  unfold bforce
+  cases hl : m.lookup k with
+  | none =>
+    cases hk : keyOf m t with
+    | none => exact h.append k t ((lookup_none_iff m k).mp hl) ((keyOf_none_iff m t).mp hk) ho
+    | some k' =>
+      refine (h.erase k').append k t ?_ (erase_val_gone h k' t (keyOf_some_mem m t k' hk)) ho
+      intro hm
+      obtain ⟨e, he, hek⟩ := List.mem_map.mp hm
+      exact (lookup_none_iff m k).mp hl (List.mem_map.mpr ⟨e, ((mem_eraseKey m k' e).mp he).1, hek⟩)
+  | some v =>
+    cases hk : keyOf m t with
+    | none => exact h.setAt k t ((keyOf_none_iff m t).mp hk) ho
+    | some k' =>
+      by_cases e : k' = k
+      · simp [e]; exact h
+      · simp only [e, if_false]
+        exact (h.erase k').setAt k t (erase_val_gone h k' t (keyOf_some_mem m t k' hk)) ho
+
+theorem binvPut_inv {m : KeyMap} (h : MapInv m) (t : Target) (k : String) (ho : Owned k t) :
+    MapInv (binvPut m t k).1 := by
+  unfold binvPut
+  cases hk : keyOf m t with
+  | none =>
+    cases hl : m.lookup k with
+    | none => exact h.append k t ((lookup_none_iff m k).mp hl) ((keyOf_none_iff m t).mp hk) ho
+    | some v => exact h
+  | some k' =>
+    cases hl : m.lookup k with
+    | none =>
+      refine (h.erase k').append k t ?_ (erase_val_gone h k' t (keyOf_some_mem m t k' hk)) ho
+      intro hm
+      obtain ⟨e, he, hek⟩ := List.mem_map.mp hm
+      exact (lookup_none_iff m k).mp hl (List.mem_map.mpr ⟨e, ((mem_eraseKey m k' e).mp he).1, hek⟩)
+    | some v => by_cases e : k' = k <;> simp [e] <;> exact h
+
+theorem bputAll_inv (kvs : List (String × Target)) (hkv : ∀ kv ∈ kvs, Owned kv.1 kv.2) :
+    ∀ {m : KeyMap}, MapInv m → MapInv (bputAll m kvs).1 := by
+  induction kvs with
+  | nil => intro m h; exact h
+  | cons kv rest ih =>
+    intro m h
+    unfold bputAll
+    have h1 := bput_inv h kv.1 kv.2 (hkv kv (by simp))
+    generalize hb : bput m kv.1 kv.2 = r at h1
+    obtain ⟨m', res⟩ := r
+    cases res <;> simp only <;> (first | exact ih (fun kv hk => hkv kv (by simp [hk])) h1 | exact h1)
+
+theorem bupdate_inv {m : KeyMap} (h : MapInv m) (kvs : List (String × Target))
+    (hkv : ∀ kv ∈ kvs, Owned kv.1 kv.2) : MapInv (bupdate m kvs).1 := by
+  unfold bupdate
+  have h1 := bputAll_inv kvs hkv h
+  generalize bputAll m kvs = r at h1
+  obtain ⟨m', res⟩ := r
+  cases res <;> simp only <;> (first | exact h1 | exact h)
+
+theorem bupdate_err_same (m : KeyMap) (kvs : List (String × Target)) (h : (bupdate m kvs).2 ≠ .ok) :
+    (bupdate m kvs).1 = m := by
+  unfold bupdate at h ⊢
+  generalize bputAll m kvs = r at h ⊢
+  obtain ⟨m', res⟩ := r
+  cases res <;> simp_all
+
+theorem editMap_inv {m : KeyMap} (h : MapInv m) (e : Edit) : MapInv (editMap m e).1 := by
+  cases e with
+  | put k v => exact bput_inv h k _ (owned_ofUser k v)
+  | del k => simp only [editMap]; split <;> (first | exact h.erase k | exact h)
+  | pop k => simp only [editMap]; split <;> (first | exact h.erase k | exact h)
+  | popd k => exact h.erase k
+  | update kvs =>
+    refine bupdate_inv h _ ?_
+    intro kv hkv
+    obtain ⟨e, _, rfl⟩ := List.mem_map.mp hkv
+    exact owned_ofUser _ _
+  | force k v => exact bforce_inv h k _ (owned_ofUser k v)
+  | invPut v k => exact binvPut_inv h _ k (owned_ofUser k v)
+  | invDel v => simp only [editMap]; split <;> (first | exact h.erase _ | exact h)
+  | clear => exact ⟨by simp [editMap], by simp [editMap], by simp [editMap]⟩
+  | popitem => simp only [editMap]; split <;> (first | exact h | exact h.sublist (List.dropLast_sublist m))
+  | setdefault k v => simp only [editMap]; split <;> (first | exact h | exact bput_inv h k _ (owned_ofUser k v))
+
+/-- a refused edit leaves the map as it was -/
+theorem editMap_err_same (m : KeyMap) (e : Edit) (h : (editMap m e).2 ≠ .ok) : (editMap m e).1 = m := by
+  cases e with
+  | put k v => exact bput_err_same m k _ h
+  | del k => simp only [editMap] at h ⊢; split <;> simp_all
+  | pop k => simp only [editMap] at h ⊢; split <;> simp_all
+  | popd k => simp [editMap] at h
+  | update kvs => exact bupdate_err_same m _ h
+  | force k v => simp [editMap] at h
+  | invPut v k =>
+    simp only [editMap, binvPut] at h ⊢
+    cases hk : keyOf m (.ofUser v) <;> cases hl : m.lookup k <;> simp_all
+    split <;> simp_all
+  | invDel v => simp only [editMap] at h ⊢; split <;> simp_all
+  | clear => simp [editMap] at h
+  | popitem => simp only [editMap] at h ⊢; split <;> simp_all
+  | setdefault k v =>
+    simp only [editMap] at h ⊢
+    split
+    · rfl
+    · rename_i hs; simp only [hs] at h; exact bput_err_same m k _ (by simpa using h)
+
+
+/-! #### what `m[k] = t` does, completely -/
+
+theorem bput_refused_iff {m : KeyMap} (h : MapInv m) (k : String) (t : Target) :
+    (bput m k t).2 ≠ .ok ↔ ∃ k', k' ≠ k ∧ (k', t) ∈ m := by
+  unfold bput
+  cases hl : m.lookup k with
+  | none =>
+    cases hk : keyOf m t with
+    | none =>
+      simp only [ne_eq, not_true_eq_false, false_iff, not_exists, not_and]
+      intro k' _ hm
+      exact (keyOf_none_iff m t).mp hk (List.mem_map.mpr ⟨(k', t), hm, rfl⟩)
+    | some k'' =>
+      simp only [ne_eq, reduceCtorEq, not_false_eq_true, true_iff]
+      have hm := keyOf_some_mem m t k'' hk
+      refine ⟨k'', ?_, hm⟩
+      intro e; subst e
+      exact (lookup_none_iff m k'').mp hl (List.mem_map.mpr ⟨(k'', t), hm, rfl⟩)
+  | some v =>
+    cases hk : keyOf m t with
+    | none =>
+      simp only [ne_eq, not_true_eq_false, false_iff, not_exists, not_and]
+      intro k' _ hm
+      exact (keyOf_none_iff m t).mp hk (List.mem_map.mpr ⟨(k', t), hm, rfl⟩)
+    | some k'' =>
+      have hm := keyOf_some_mem m t k'' hk
+      by_cases e : k'' = k
+      · simp only [e, if_true, ne_eq, not_true_eq_false, false_iff, not_exists, not_and]
+        intro k' hne hm'
+        exact hne (e ▸ key_unique m h.vals k' k'' t hm' hm)
+      · simp only [e, if_false, ne_eq, reduceCtorEq, not_false_eq_true, true_iff]
+        exact ⟨k'', e, hm⟩
+
+theorem bput_ok_lookup {m : KeyMap} (h : MapInv m) (k : String) (t : Target)
+    (hok : (bput m k t).2 = .ok) (x : String) :
+    (bput m k t).1.lookup x = if x = k then some t else m.lookup x := by
+  unfold bput at hok ⊢
+  cases hl : m.lookup k with
+  | none =>
+    cases hk : keyOf m t with
+    | none =>
+      simp only [lookup_append_single]
+      by_cases hx : x = k
+      · subst hx; simp [hl]
+      · simp only [hx, if_false]; cases m.lookup x <;> rfl
+    | some k'' => simp [hl, hk] at hok
+  | some v =>
+    cases hk : keyOf m t with
+    | none =>
+      simp only [lookup_setAt]
+      by_cases hx : x = k
+      · subst hx; simp [hl]
+      · simp [hx]
+    | some k'' =>
+      by_cases e : k'' = k
+      · subst e
+        simp only [if_true]
+        by_cases hx : x = k''
+        · subst hx
+          simp only [if_true]
+          exact lookup_mem_nodup m x t h.keys (keyOf_some_mem m t x hk)
+        · simp [hx]
+      · simp [hl, hk, e] at hok
+
+/-! #### the getter's clean-up -/
+
+/-- no raw `None` is stored -/
+def Normal (m : KeyMap) : Prop := Target.rawNone ∉ m.map Prod.snd
+
+theorem lookup_userView (m : KeyMap) (k : String) : (userView m).lookup k = (m.lookup k).map Target.view := by
+  induction m with
+  | nil => simp [userView]
+  | cons e rest ih =>
+    obtain ⟨k', v⟩ := e
+    unfold userView at ih ⊢
+    by_cases hx : k = k'
+    · subst hx; simp
+    · have : (k == k') = false := by simpa using hx
+      simp only [List.map_cons, List.lookup, this, ih]
+
+theorem userView_setAt_hidden (m : KeyMap) (k : String) (hk : (m.map Prod.fst).Nodup)
+    (hl : m.lookup k = some .rawNone) : userView (setAt m k (.disabled k)) = userView m := by
+  unfold userView setAt
+  rw [List.map_map]
+  apply List.map_congr_left
+  intro e he
+  by_cases hek : e.1 = k
+  · have : m.lookup k = some e.2 := lookup_mem_nodup m k e.2 hk (by rw [← hek]; exact he)
+    rw [hl] at this
+    simp only [Option.some.injEq] at this
+    simp [hek, ← this, Target.view]
+  · simp [hek]
+
+theorem normalizeFrom_spec (items : List (String × Target)) :
+    ∀ (cur : KeyMap), MapInv cur → (items.map Prod.fst).Nodup → (∀ e ∈ items, cur.lookup e.1 = some e.2) →
+      (normalizeFrom cur items).2 = .ok ∧ MapInv (normalizeFrom cur items).1 ∧
+      userView (normalizeFrom cur items).1 = userView cur ∧
+      (∀ k, (normalizeFrom cur items).1.lookup k = some .rawNone →
+        cur.lookup k = some .rawNone ∧ k ∉ items.map Prod.fst) := by
+  induction items with
+  | nil => intro cur h _ _; exact ⟨rfl, h, rfl, fun k hk => ⟨hk, by simp⟩⟩
+  | cons e rest ih =>
+    intro cur h hnd hag
+    obtain ⟨k0, t0⟩ := e
+    simp only [List.map_cons, List.nodup_cons] at hnd
+    have hl : cur.lookup k0 = some t0 := hag (k0, t0) (by simp)
+    have hag' : ∀ e ∈ rest, cur.lookup e.1 = some e.2 := fun e he => hag e (by simp [he])
+    cases t0 with
+    | name n =>
+      obtain ⟨h1, h2, h3, h4⟩ := ih cur h hnd.2 hag'
+      refine ⟨h1, h2, h3, ?_⟩
+      intro k hk
+      obtain ⟨h5, h6⟩ := h4 k hk
+      refine ⟨h5, ?_⟩
+      simp only [List.map_cons, List.mem_cons, not_or]
+      refine ⟨?_, h6⟩
+      intro e; subst e; rw [hl] at h5; cases h5
+    | disabled n =>
+      obtain ⟨h1, h2, h3, h4⟩ := ih cur h hnd.2 hag'
+      refine ⟨h1, h2, h3, ?_⟩
+      intro k hk
+      obtain ⟨h5, h6⟩ := h4 k hk
+      refine ⟨h5, ?_⟩
+      simp only [List.map_cons, List.mem_cons, not_or]
+      refine ⟨?_, h6⟩
+      intro e; subst e; rw [hl] at h5; cases h5
+    | rawNone =>
+      have hk : keyOf cur (.disabled k0) = none := by
+        cases hk : keyOf cur (.disabled k0) with
+        | none => rfl
+        | some k' =>
+          have hm := keyOf_some_mem cur _ k' hk
+          have := h.own k' k0 hm
+          subst this
+          have := lookup_mem_nodup cur k' _ h.keys hm
+          rw [hl] at this; cases this
+      have hb : bput cur k0 (.disabled k0) = (setAt cur k0 (.disabled k0), .ok) := by
+        simp [bput, hl, hk]
+      have hinv : MapInv (setAt cur k0 (.disabled k0)) :=
+        h.setAt k0 _ ((keyOf_none_iff cur _).mp hk) (owned_disabled k0)
+      have hag'' : ∀ e ∈ rest, (setAt cur k0 (.disabled k0)).lookup e.1 = some e.2 := by
+        intro e he
+        have hne : e.1 ≠ k0 := fun e' => hnd.1 (List.mem_map.mpr ⟨e, he, e'⟩)
+        rw [lookup_setAt]; simp [hne, hag' e he]
+      obtain ⟨h1, h2, h3, h4⟩ := ih _ hinv hnd.2 hag''
+      have hstep : normalizeFrom cur ((k0, Target.rawNone) :: rest) =
+          normalizeFrom (setAt cur k0 (.disabled k0)) rest := by
+        simp [normalizeFrom, hb]
+      rw [hstep]
+      refine ⟨h1, h2, ?_, ?_⟩
+      · rw [h3]; exact userView_setAt_hidden cur k0 h.keys hl
+      · intro k hk'
+        obtain ⟨h5, h6⟩ := h4 k hk'
+        rw [lookup_setAt] at h5
+        by_cases hkk : k = k0
+        · subst hkk; simp [hl] at h5
+        · simp only [hkk, if_false] at h5
+          refine ⟨h5, ?_⟩
+          simp only [List.map_cons, List.mem_cons, not_or]
+          exact ⟨hkk, h6⟩
+
+/-- the getter on a well-formed stored map: never raises, keeps it well-formed, does not
+change what the user sees, and leaves no raw `None` behind -/
+theorem normalize_spec {m : KeyMap} (h : MapInv m) :
+    (normalize m).2 = .ok ∧ MapInv (normalize m).1 ∧ userView (normalize m).1 = userView m ∧
+      Normal (normalize m).1 := by
+  have hag : ∀ e ∈ m, m.lookup e.1 = some e.2 := fun e he => lookup_mem_nodup m e.1 e.2 h.keys he
+  obtain ⟨h1, h2, h3, h4⟩ := normalizeFrom_spec m m h h.keys hag
+  refine ⟨h1, h2, h3, ?_⟩
+  intro hmem
+  obtain ⟨⟨k, t⟩, hkt, ht⟩ := List.mem_map.mp hmem
+  simp only at ht; subst ht
+  have hl := lookup_mem_nodup _ k _ h2.keys hkt
+  obtain ⟨h5, h6⟩ := h4 k hl
+  exact h6 (lookup_some_keys m k _ h5)
+
+/-- on a clean map hiding a channel is never refused -/
+theorem bput_none_ok {m : KeyMap} (hn : Normal m) (k : String) : (bput m k .rawNone).2 = .ok := by
+  have : keyOf m .rawNone = none := (keyOf_none_iff m _).mpr hn
+  unfold bput
+  cases hl : m.lookup k <;> simp [this]
+
+/-! #### the panel depends on the stored map only through what the user sees -/
+
+theorem stepKey_view (m : KeyMap) (connected : Nat → Bool) (ch : String × Nat) :
+    stepKey m connected ch =
+      if uInIO (userView m) connected ch then some (uKey (userView m) ch) else none := by
+  unfold stepKey uInIO uKey
+  rw [lookup_userView]
+  cases h : m.lookup ch.1 with
+  | none => cases hc : connected ch.2 <;> simp
+  | some t => cases t <;> simp [Target.view]
+
+theorem buildFrom_congr (m m' : KeyMap) (connected : Nat → Bool)
+    (h : ∀ ch, stepKey m connected ch = stepKey m' connected ch) :
+    ∀ (chans : Chans) (io : Panel), buildFrom m connected io chans = buildFrom m' connected io chans := by
+  intro chans
+  induction chans with
+  | nil => intro io; rfl
+  | cons ch rest ih =>
+    intro io
+    unfold buildFrom
+    rw [h ch]
+    cases stepKey m' connected ch with
+    | none => exact ih io
+    | some k => simp only; split <;> (first | rfl | exact ih _)
+
+theorem buildFrom_view (m m' : KeyMap) (connected : Nat → Bool) (h : userView m = userView m')
+    (chans : Chans) (io : Panel) : buildFrom m connected io chans = buildFrom m' connected io chans :=
+  buildFrom_congr m m' connected (fun ch => by rw [stepKey_view, stepKey_view, h]) chans io
+
+theorem inIO_view (m : KeyMap) (connected : Nat → Bool) (ch : String × Nat) :
+    inIO m connected ch = uInIO (userView m) connected ch := by
+  unfold inIO uInIO exposedAs isHidden
+  rw [lookup_userView]
+  cases h : m.lookup ch.1 with
+  | none => simp
+  | some t => cases t <;> simp [Target.view]
+
+theorem keyFor_view (m : KeyMap) (ch : String × Nat) : keyFor m ch = uKey (userView m) ch := by
+  unfold keyFor uKey exposedAs
+  rw [lookup_userView]
+  cases h : m.lookup ch.1 with
+  | none => simp
+  | some t => cases t <;> simp [Target.view]
+
+theorem spec_eq_uspec (m : Option KeyMap) (connected : Nat → Bool) (chans : Chans) :
+    spec m connected chans = uspec (userView (m.getD [])) connected chans := by
+  unfold spec uspec
+  have h1 : inIO (m.getD []) connected = uInIO (userView (m.getD [])) connected :=
+    funext (inIO_view _ connected)
+  rw [h1]
+  apply List.map_congr_left
+  intro ch _
+  rw [keyFor_view]
+
+
+/-! #### worlds -/
+
+def MapOK : Option KeyMap → Prop
+  | none => True
+  | some m => MapInv m
+
+/-- both stored maps are well-formed bidicts -/
+def WInv (w : W) : Prop := MapOK w.imap ∧ MapOK w.omap
+
+/-- the argument of a whole-map assignment is a Python mapping: its keys are pairwise different -/
+def Op.WF : Op → Prop
+  | .setMap _ (some m) => (m.map Prod.fst).Nodup
+  | .setMapB _ m => (m.map Prod.fst).Nodup
+  | _ => True
+
+theorem dedupNones_inv (m : UserMap) (hk : (m.map Prod.fst).Nodup) (hb : bidictOk (dedupNones m) = true) :
+    MapInv (dedupNones m) := by
+  refine ⟨by rw [dedupNones_keys]; exact hk, by simpa [bidictOk] using hb, ?_⟩
+  intro k k' hm
+  simp only [dedupNones, List.mem_map] at hm
+  obtain ⟨⟨a, v⟩, _, he⟩ := hm
+  cases v with
+  | none => simp at he; rw [← he.1, ← he.2]
+  | some s => simp at he
+
+theorem setMap_ok (old : Option KeyMap) (new : Option UserMap) (ho : MapOK old)
+    (hk : ∀ m, new = some m → (m.map Prod.fst).Nodup) : MapOK (setMap old new).1 := by
+  unfold setMap
+  cases new with
+  | none => trivial
+  | some m =>
+    simp only
+    split
+    · rename_i hb; exact dedupNones_inv m (hk m rfl) hb
+    · exact ho
+
+theorem setMapB_ok (old : Option KeyMap) (m : UserMap) (ho : MapOK old) (hk : (m.map Prod.fst).Nodup) :
+    MapOK (setMapB old m).1 := by
+  unfold setMapB
+  simp only
+  split
+  · rename_i hb
+    refine ⟨?_, by simpa [bidictOk] using hb, ?_⟩
+    · rw [List.map_map]; exact hk
+    · intro k k' hm
+      obtain ⟨⟨a, v⟩, _, he⟩ := List.mem_map.mp hm
+      cases v <;> simp [Target.ofUser] at he
+  · exact ho
+
+theorem readMap_ok (m : Option KeyMap) (ho : MapOK m) : MapOK (readMap m).1 := by
+  cases m with
+  | none => trivial
+  | some m => exact (normalize_spec ho).2.1
+
+theorem editStored_ok (m : Option KeyMap) (e : Edit) (ho : MapOK m) : MapOK (editStored m e).1 := by
+  cases m with
+  | none => trivial
+  | some m => exact editMap_inv ho e
+
+theorem setValue_maps (w : W) (c : Nat) (v : Val) :
+    (setValue w c v).1.imap = w.imap ∧ (setValue w c v).1.omap = w.omap := by
+  unfold setValue; split <;> simp
+
+theorem assignVia_maps (w : W) (s : Side) (k : String) (v : Val) :
+    (assignVia w s k v).1.imap = w.imap ∧ (assignVia w s k v).1.omap = w.omap := by
+  unfold assignVia
+  cases w.panel s with
+  | none => simp
+  | some p =>
+    simp only
+    cases panelGet p k with
+    | none => simp
+    | some c => exact setValue_maps w c v
+
+theorem connectVia_maps (w : W) (s : Side) (k : String) (b : Nat) :
+    (connectVia w s k b).1.imap = w.imap ∧ (connectVia w s k b).1.omap = w.omap := by
+  unfold connectVia
+  cases w.panel s with
+  | none => simp
+  | some p =>
+    simp only
+    cases panelGet p k with
+    | none => simp only; split <;> simp
+    | some c => simp
+
+theorem addChild_maps (w : W) (c : Child) :
+    (addChild w c).1.imap = w.imap ∧ (addChild w c).1.omap = w.omap := by
+  unfold addChild; split <;> simp
+
+theorem removeChild_maps (w : W) (l : String) :
+    (removeChild w l).1.imap = w.imap ∧ (removeChild w l).1.omap = w.omap := by
+  unfold removeChild; split <;> simp
+
+/-- every operation of the larger alphabet keeps both stored maps well-formed -/
+theorem step_inv (w : W) (op : Op) (h : WInv w) (hwf : op.WF) : WInv (step w op).1 := by
+  obtain ⟨hi, ho⟩ := h
+  cases op with
+  | add c => have := addChild_maps w c; simp only [step, WInv, this.1, this.2]; exact ⟨hi, ho⟩
+  | remove l => have := removeChild_maps w l; simp only [step, WInv, this.1, this.2]; exact ⟨hi, ho⟩
+  | connect a b => exact ⟨hi, ho⟩
+  | disconnect a b => exact ⟨hi, ho⟩
+  | disconnectAll a => exact ⟨hi, ho⟩
+  | setMap s m =>
+    have hk : ∀ m', m = some m' → (m'.map Prod.fst).Nodup := by
+      intro m' e; subst e; exact hwf
+    cases s
+    · exact ⟨setMap_ok _ _ hi hk, ho⟩
+    · exact ⟨hi, setMap_ok _ _ ho hk⟩
+  | assign s k v => have := assignVia_maps w s k v; simp only [step, WInv, this.1, this.2]; exact ⟨hi, ho⟩
+  | connectVia s k b => have := connectVia_maps w s k b; simp only [step, WInv, this.1, this.2]; exact ⟨hi, ho⟩
+  | setVal c v => exact ⟨hi, ho⟩
+  | setMapB s m =>
+    cases s
+    · exact ⟨setMapB_ok _ _ hi hwf, ho⟩
+    · exact ⟨hi, setMapB_ok _ _ ho hwf⟩
+  | read s =>
+    cases s
+    · exact ⟨readMap_ok _ hi, ho⟩
+    · exact ⟨hi, readMap_ok _ ho⟩
+  | edit s e =>
+    cases s
+    · exact ⟨editStored_ok _ e hi, ho⟩
+    · exact ⟨hi, editStored_ok _ e ho⟩
+
+theorem run_inv (ops : List Op) (hwf : ∀ op ∈ ops, op.WF) : ∀ (w : W), WInv w → WInv (run w ops) := by
+  induction ops with
+  | nil => intro w h; exact h
+  | cons op rest ih =>
+    intro w h
+    have : run w (op :: rest) = run (step w op).1 rest := rfl
+    rw [this]
+    exact ih (fun o ho => hwf o (by simp [ho])) _ (step_inv w op h (hwf op (by simp)))
+
+theorem empty_inv (admits : Nat → Val → Bool) (valid : Nat → Nat → Bool) : WInv (empty admits valid) :=
+  ⟨trivial, trivial⟩
+
+/-- the map of one side after the getter ran -/
+theorem read_map (w : W) (s : Side) :
+    (step w (.read s)).1.map s = (readMap (w.map s)).1 ∧ (step w (.read s)).2 = (readMap (w.map s)).2 ∧
+    (step w (.read s)).1.children = w.children ∧ (step w (.read s)).1.g = w.g ∧
+    (step w (.read s)).1.val = w.val := by
+  cases s <;> simp [step, W.map]
+
+theorem edit_map (w : W) (s : Side) (e : Edit) :
+    (step w (.edit s e)).1.map s = (editStored (w.map s) e).1 ∧
+    (step w (.edit s e)).2 = (editStored (w.map s) e).2 ∧
+    (step w (.edit s e)).1.children = w.children ∧ (step w (.edit s e)).1.g = w.g := by
+  cases s <;> simp [step, W.map]
+
+theorem WInv.map {w : W} (h : WInv w) (s : Side) : MapOK (w.map s) := by
+  cases s
+  · exact h.1
+  · exact h.2
+
+theorem view_ofUser (v : Option String) : (Target.ofUser v).view = v := by
+  cases v <;> rfl
+
+theorem panel_congr (w w' : W) (s : Side) (hc : w'.children = w.children) (hg : w'.g = w.g)
+    (hv : userView ((w'.map s).getD []) = userView ((w.map s).getD [])) : w'.panel s = w.panel s := by
+  unfold W.panel buildIO W.chans
+  have : w'.connected = w.connected := by funext c; simp [W.connected, hg]
+  rw [hc, this]
+  exact buildFrom_view _ _ _ hv _ _
+
 end PwVerif.WfIO
